@@ -86,25 +86,6 @@ Proof.
   - unfold remz. now apply NoDup_filter.
 Qed.
 
-Lemma order_by_log_In log w g : In g (order_by_log log w) <-> In g w.
-Proof.
-  unfold order_by_log. rewrite in_app_iff, !filter_In. split.
-  - intros [[_ H]|[H _]]; auto. now apply memz_In.
-  - intros H.
-    destruct (memz g (filter (fun g0 => memz g0 w) (dedup (log_gids log)))) eqn:E.
-    + left. apply memz_In in E. apply filter_In in E. tauto.
-    + right. auto.
-Qed.
-
-Lemma order_by_log_nodup log w : NoDup w -> NoDup (order_by_log log w).
-Proof.
-  intros ND. unfold order_by_log. apply NoDup_app_intro.
-  - apply NoDup_filter, dedup_nodup.
-  - now apply NoDup_filter.
-  - intros x Hx H. apply filter_In in H. destruct H as [_ H].
-    apply negb_true_iff, memz_false in H. contradiction.
-Qed.
-
 Lemma insert_by_In key x l y : In y (insert_by key x l) <-> y = x \/ In y l.
 Proof.
   induction l as [|z l IH]; cbn [insert_by In].
@@ -156,8 +137,8 @@ Proof.
 Qed.
 
 (* ---- the wake phase ---------------------------------------------------------- *)
-Lemma wake_sim s b dt log s1 e :
-  Inv s [] b -> wake s dt log = Some (s1, e) ->
+Lemma wake_sim ordered s b dt log s1 e :
+  Inv s [] b -> wake ordered s dt log = Some (s1, e) ->
   e = false /\
   exists W, Inv s1 [] (b ++ W) /\
     (forall g, abs_st s1 g = option_map (tick1 dt) (abs_st s g)) /\
@@ -186,7 +167,9 @@ Proof.
   set (lg := live_gids popped) in *.
   set (kd := filter (fun g => memz g (killq s)) lg) in *.
   set (wk := filter (fun g => negb (memz g (killq s))) lg) in *.
-  set (ordered := sort_by (dl_of popped) (order_by_log log wk)) in *.
+  destruct (negb (valid_order popped log wk ordered)) eqn:Ev; [discriminate|].
+  apply negb_false_iff in Ev. unfold valid_order in Ev. rewrite !andb_true_iff in Ev.
+  destruct Ev as ((((Ev1 & Ev2) & Ev3) & _) & _).
   (* facts about the popped records *)
   assert (Hlg : forall g, In g lg <-> exists rid d, In (mkW rid d (Some g)) (waitq s) /\ d <= tm).
   { intros g. unfold lg. rewrite live_In. split.
@@ -208,10 +191,11 @@ Proof.
   assert (Hkd : forall g, In g kd <-> In g lg /\ memz g (killq s) = true).
   { intros g. unfold kd. now rewrite filter_In. }
   assert (Hwk : forall g, In g ordered <-> In g lg /\ memz g (killq s) = false).
-  { intros g. unfold ordered. rewrite sort_by_In, order_by_log_In. unfold wk. rewrite filter_In.
-    now rewrite negb_true_iff. }
+  { intros g. assert (In g ordered <-> In g wk) as ->.
+    { split; [apply (proj1 (subz_In _ _) Ev2)|apply (proj1 (subz_In _ _) Ev3)]. }
+    unfold wk. rewrite filter_In. now rewrite negb_true_iff. }
   assert (NDo : NoDup ordered).
-  { apply sort_by_nodup, order_by_log_nodup. unfold wk. now apply NoDup_filter. }
+  { now apply nodupb_NoDup. }
   (* the dropped ones *)
   match type of Hw with context [drop_all ?S kd] => set (s0 := S) in * end.
   destruct (drop_all_spec kd s0) as (s2 & Ed & G2 & K2 & P2 & A2 & Q2 & V2 & T2 & N2 & C2 & D2).
